@@ -61,6 +61,7 @@ func runC11(t *testing.T, res *common.Result, rng *common.Rng) {
 	n := 0
 	for _, sig := range []syscall.Signal{syscall.SIGINT, syscall.SIGTERM} {
 		c11TimerCallbackInFlight(t, res, rng.Fork(uint64(1000+int(sig))), sig)
+		c11RepeatedSignal(t, res, rng.Fork(uint64(2000+int(sig))), sig)
 	}
 	for _, cfg := range cfgs {
 		for _, sig := range []syscall.Signal{syscall.SIGINT, syscall.SIGTERM} {
@@ -153,6 +154,91 @@ func c11TimerCallbackInFlight(t *testing.T, res *common.Result, rng *common.Rng,
 			replay["log_tail"] = srv.logTail(40)
 			res.Find(common.Finding{Kind: "violation", Property: "C11", Signature: "stack:shutdown:holds-cleared:timer-callback-in-flight",
 				What: fmt.Sprintf("after %s (idle callback of a REST session in flight) the state file lacks the gRPC hold %s/%s that was live at shutdown", sigName(sig), name, o.Key), Replay: replay})
+		}
+	}
+}
+
+// c11RepeatedSignal: the signal arrives more than once (a second Ctrl-C, a supervisor that signals the
+// process group and the pid): the shutdown that the first one started still runs to its end - exit status 0,
+// not "killed by signal", and the live holds stay in the state file.
+func c11RepeatedSignal(t *testing.T, res *common.Result, rng *common.Rng, sig syscall.Signal) {
+	srv := startServer(t, srvCfg{rest: true})
+	if !srv.started {
+		t.Fatalf("server did not start: %v", srv.logTail(40))
+	}
+	defer srv.kill()
+	g1 := &grpcT{g: dialGrpc(t, srv.grpcAddr, nil)}
+	defer g1.g.close()
+	g2 := &grpcT{g: dialGrpc(t, srv.grpcAddr, nil)}
+	defer g2.g.close()
+	var held []hold
+	log := []string{}
+	for i := 0; i < 20; i++ {
+		name := randName(rng, "rs")
+		a := lockArgs{name: name}
+		if i%2 == 0 {
+			a.lockTO = i32(60)
+		}
+		if o := g1.tryLock(a); o.Flag {
+			held = append(held, hold{name, o.Key, 1})
+			log = append(log, fmt.Sprintf("g1 TryLock %s -> key=%s", a, o.Key))
+		}
+	}
+	if len(held) > 0 {
+		go func() {
+			ctx, cancel := rpcCtx(30 * time.Second)
+			defer cancel()
+			g2.g.c.Lock(ctx, &pb.LockRequest{Name: held[0].Name})
+		}()
+		time.Sleep(100 * time.Millisecond)
+		log = append(log, fmt.Sprintf("g2 Lock name=%s -> (blocked)", held[0].Name))
+	}
+	res.Eval(fmt.Sprintf("%s|repeated-signal|holds=%d", sigName(sig), len(held)), len(held) > 0)
+	sent := 0
+	tSig := time.Now()
+	for time.Since(tSig) < 200*time.Millisecond {
+		if srv.signal(sig) != nil {
+			break
+		}
+		sent++
+		time.Sleep(100 * time.Microsecond)
+	}
+	res.Count("repeated-signal:scenario")
+	replay := map[string]any{"server_flags": srv.args, "signal": fmt.Sprintf("%s, repeated every 100 us until the process is gone (at most 200 ms): %d sent", sigName(sig), sent), "requests_before_signal": log}
+	res.Sample(replay)
+	code, signaled, ok := srv.waitExit(10 * time.Second)
+	replay["log_tail"] = srv.logTail(40)
+	switch {
+	case !ok:
+		res.Count("exit:repeated-signal:hang")
+		res.Find(common.Finding{Kind: "violation", Property: "C11", Signature: "stack:shutdown:hang:repeated-signal", What: "the server is still running 10 s after " + sigName(sig) + " was sent repeatedly", Replay: replay})
+		srv.kill()
+		return
+	case signaled:
+		res.Count("exit:repeated-signal:killed-by-signal")
+		res.Find(common.Finding{Kind: "violation", Property: "C11", Signature: "stack:shutdown:exit-status:repeated-signal",
+			What: fmt.Sprintf("a further %s during the shutdown killed the server (terminated by the signal instead of exit status 0): the shutdown the first one started was cut short", sigName(sig)), Replay: replay})
+	case code != 0:
+		res.Count(fmt.Sprintf("exit:repeated-signal:status-%d", code))
+		res.Find(common.Finding{Kind: "violation", Property: "C11", Signature: "stack:shutdown:exit-status:repeated-signal", What: fmt.Sprintf("the server exited with status %d after repeated %s, required 0", code, sigName(sig)), Replay: replay})
+	default:
+		res.Count("exit:repeated-signal:status-0")
+	}
+	if srv.crashed() {
+		res.Find(common.Finding{Kind: "violation", Property: "C11", Signature: "stack:shutdown:panic:repeated-signal", What: "the server printed a panic / fatal error while shutting down on repeated " + sigName(sig), Replay: replay})
+	}
+	if st, _, err := readState(srv.state); err != nil {
+		res.Find(common.Finding{Kind: "violation", Property: "C11", Signature: "stack:shutdown:holds-cleared:repeated-signal", What: "the state file left by the shutdown cannot be decoded: " + err.Error(), Replay: replay})
+	} else {
+		missing := 0
+		for _, h := range held {
+			if !containsHold(st, h) {
+				missing++
+			}
+		}
+		if missing > 0 {
+			res.Find(common.Finding{Kind: "violation", Property: "C11", Signature: "stack:shutdown:holds-cleared:repeated-signal",
+				What: fmt.Sprintf("after repeated %s the state file lacks %d of the %d holds that were live at shutdown", sigName(sig), missing, len(held)), Replay: replay})
 		}
 	}
 }
